@@ -15,7 +15,7 @@ TEXT = {
  'C11': ('other', 'Two clauses only. Handler counts: Verus proves that subscribe / unsubscribe / linking / unlinking move the per-node handler counter by exactly the handlers registered (composition lemma). Edge bookkeeping: Verus proves on the real bodies that Node::add_parent records a new edge symmetrically on both ends, Node::remove_parent removes exactly that edge and re-slots the parent moved into the freed position symmetrically, and expert_swap_children_except_in_kind keeps both swapped edges symmetric - each with a full frame (nothing else moves). Whether these are called for the right nodes, heights, heap membership and stats().necessary are not under contract.', '4/C11'),
  'C07': ('other', 'Mechanism: try_get_value gating (no reads while Stabilising, NeverStabilised until linked) proved by Verus; Var writes outside stabilise proved to leave node values untouched; frame obligations pin the writers of node values, of the engine status and of the observer states.', '4/C07'),
  'C13': ('other', 'Mechanism: nested stabilise must panic before touching anything (Verus, must-panic variant), reads refuse while Stabilising, Var writes while Stabilising only park; frame obligations: status is written only by stabilise_start/stabilise_end, no catch_unwind, statement order of stabilise.', '4/C13'),
- 'C06': ('other', 'Mechanism: Cutoff::should_cutoff and ErasedCutoff forward (old,new) in order for every cutoff kind; the staleness predicates edge_is_stale / is_stale / needs_to_be_computed are proved against their specification; frame obligations pin where changed_at / recomputed_at are written and that maybe_change_value consults the cutoff with (old,new).', '4/C06'),
+ 'C06': ('other', 'Mechanism: Node::maybe_change_value and the map_ref arm of Node::child_changed ask the cutoff with (old,new), only when there is an old value, and tell the change step exactly whether it suppressed the change (Verus, permission predicates); Cutoff::should_cutoff forwards (old,new) in order for every cutoff kind; the staleness predicates edge_is_stale / is_stale / needs_to_be_computed are proved against their specification; the recompute heap returns the lowest queued node and never loses one (remove_min / insert / counting lemmas); frame obligations pin where changed_at / recomputed_at are written.', '4/C06'),
  'C05': ('other', 'Mechanism: is_necessary and check_if_unnecessary proved against their specification, var writes queue the watch node only when necessary, last-clone drop always disallows; frame obligations: every recompute_heap.insert is dominated by a necessity test or assertion, disallowed observers are unlinked at stabilise start.', '4/C05'),
 }
 
